@@ -12,6 +12,7 @@ import (
 	tmbytes "github.com/cometbft/cometbft/libs/bytes"
 	tmtypes "github.com/cometbft/cometbft/types"
 	sdk "github.com/cosmos/cosmos-sdk/types"
+	sdkerrors "github.com/cosmos/cosmos-sdk/types/errors"
 	gethcommon "github.com/ethereum/go-ethereum/common"
 	"github.com/ethereum/go-ethereum/core"
 	gethcore "github.com/ethereum/go-ethereum/core/types"
@@ -42,6 +43,9 @@ func (k *Keeper) EthereumTx(
 		return evmResp, errors.Wrap(err, "EthereumTx validate basic failed")
 	}
 	ctx := sdk.UnwrapSDKContext(goCtx)
+	if err := k.rejectWithinEvm(ctx, txMsg); err != nil {
+		return nil, err
+	}
 
 	tx := txMsg.AsTransaction()
 	txConfig := k.TxConfig(ctx, tx.Hash())
@@ -103,6 +107,22 @@ func (k *Keeper) EthereumTx(
 	k.EvmState.BlockTxIndex.Set(ctx, uint64(txConfig.TxIndex)+1)
 
 	return evmResp, nil
+}
+
+// rejectWithinEvm refuses a transaction message of the EVM module that arrives
+// while an EVM state transition is running, e.g. dispatched by a Wasm contract
+// that an EVM contract called through the Wasm precompile. The handlers of these
+// messages execute and commit an EVM state transition of their own. Nested
+// inside another one, they would use its [statedb.StateDB], commit it halfway and
+// make the effects of call frames that get reverted later permanent.
+func (k *Keeper) rejectWithinEvm(ctx sdk.Context, msg sdk.Msg) error {
+	if statedb.IsPrecompileCtx(ctx) {
+		return errors.Wrapf(
+			sdkerrors.ErrInvalidRequest,
+			"%s cannot be executed from within an EVM transaction", sdk.MsgTypeURL(msg),
+		)
+	}
+	return nil
 }
 
 // NewEVM generates a go-ethereum VM.
@@ -407,8 +427,12 @@ func (k *Keeper) CreateFunToken(
 		return nil, err
 	}
 
-	// Deduct fee upon registration.
 	ctx := sdk.UnwrapSDKContext(goCtx)
+	if err = k.rejectWithinEvm(ctx, msg); err != nil {
+		return nil, err
+	}
+
+	// Deduct fee upon registration.
 	err = k.deductCreateFunTokenFee(ctx, msg)
 	if err != nil {
 		return nil, err
@@ -467,6 +491,9 @@ func (k *Keeper) ConvertCoinToEvm(
 	goCtx context.Context, msg *evm.MsgConvertCoinToEvm,
 ) (resp *evm.MsgConvertCoinToEvmResponse, err error) {
 	ctx := sdk.UnwrapSDKContext(goCtx)
+	if err := k.rejectWithinEvm(ctx, msg); err != nil {
+		return nil, err
+	}
 
 	sender := sdk.MustAccAddressFromBech32(msg.Sender)
 
